@@ -553,6 +553,29 @@ class Executor:
             if r is not NotImplemented:
                 return r
         name = f.fullname if isinstance(f, (FuncRef, ClassRef)) else vrepr(f)
+        if isinstance(f, Tm) and f.op in ('attr:sf', 'attr:cdf', 'attr:pmf') and len(f.args) == 1 and vrepr(f.args[0]).rstrip(')').endswith('.binom') \
+                and len(args) == 3 and not kwargs:
+            # scipy.stats.binom (documented): pmf(k, n, p) = C(n,k) p^k (1-p)^(n-k); cdf(k) = P(X <= k); sf(k) = P(X > k) - the STRICT upper tail
+            k_, n_, p_ = exact(args[0]), exact(args[1]), exact(args[2])
+            if isinstance(k_, (int, Fraction)) and isinstance(n_, (int, Fraction)) and int(k_) == k_ and int(n_) == n_ and 0 <= n_ <= 40 and is_scalar(p_):
+                import math as _m
+                k_, n_ = int(k_), int(n_)
+                pr = to_real(p_)
+
+                def pmf(j):
+                    if j < 0 or j > n_:
+                        return z3.RealVal(0)
+                    t = z3.RealVal(_m.comb(n_, j))
+                    for _ in range(j):
+                        t = t * pr
+                    for _ in range(n_ - j):
+                        t = t * (1 - pr)
+                    return t
+                rng_ = {'attr:pmf': [k_], 'attr:cdf': range(0, k_ + 1), 'attr:sf': range(k_ + 1, n_ + 1)}[f.op]
+                tot = z3.RealVal(0)
+                for j in rng_:
+                    tot = tot + pmf(j)
+                return tot
         if isinstance(f, FuncRef):
             try:
                 bound = self.bind(f.node, f.mod, args, kwargs, Env(None, f.mod))
